@@ -9,7 +9,7 @@ CHECK = {
         # String/FromString/JSON forms of TrackerStatus, PinMode, PinType; the parsers on arbitrary words
         suite("strings", "c08", 2000, 20000, stdin=True, args=["-suite", "str"]),
         # SEARCH (not proof): mutated valid encodings and random bytes into every decoder entry point, under recover()
-        suite("decoders", "c08", 10000, 350000, stdin=True, args=["-suite", "fuzz"], timeout={"quick": 600, "thorough": 2400}),
+        suite("decoders", "c08", 10000, 250000, stdin=True, args=["-suite", "fuzz"], timeout={"quick": 600, "thorough": 2400}),
     ],
     "lean_sources": ["ClusterVerif/Model/C08.lean", "ClusterVerif/Spec/C08.lean", "ClusterVerif/Lemmas/C08.lean",
                      "ClusterVerif/Gen/C08.lean"],
